@@ -82,7 +82,31 @@ pub fn child(args: &[String]) {
     }
     // "redirect <file>": the stream is then re-pointed at a file and a second appender is built: what it does follows
     // the stream as it is when it is built (a file is not a terminal)
-    if let Some(path) = args.get(4) {
+    // "epipe <file>": the reader of the stream goes away (the stream becomes a pipe nobody reads: one append fails with
+    // "broken pipe"), then the stream is re-pointed at a file: the same appender writes there as if nothing had
+    // happened - what an appender does is decided when it is built, a failed write changes nothing (Console.tla)
+    if args.get(5).map(|s| s == "epipe").unwrap_or(false) {
+        use std::os::unix::io::AsRawFd;
+        let mut fds = [0i32; 2];
+        unsafe {
+            libc::pipe(fds.as_mut_ptr());
+            libc::dup2(fds[1], fd);
+            libc::close(fds[1]);
+            libc::close(fds[0]);
+        }
+        let _ = a.append(&log::Record::builder().level(log::Level::Error).target("tg").args(format_args!("into the void")).build());
+        let f = std::fs::OpenOptions::new().create(true).append(true).open(&args[6]).expect("epipe file");
+        unsafe {
+            libc::dup2(f.as_raw_fd(), fd);
+        }
+        for l in LEVELS {
+            if a.append(&log::Record::builder().level(l).target("tg").args(format_args!("payload")).build()).is_err() {
+                std::process::exit(3);
+            }
+        }
+        return;
+    }
+    if let Some(path) = args.get(4).filter(|p| p.as_str() != "-") {
         drop(a);
         use std::os::unix::io::AsRawFd;
         let f = std::fs::OpenOptions::new().create(true).append(true).open(path).expect("redirect file");
@@ -218,6 +242,13 @@ fn check_row(case: &Value, exe: &str, idx: usize) -> Option<Value> {
     } else {
         None
     };
+    let epipe = if variant == 2 {
+        let s = crate::fsutil::Scratch::new("epipe");
+        cmd.arg("-").arg("epipe").arg(s.path().join("after.txt"));
+        Some(s)
+    } else {
+        None
+    };
     for (var, key) in [("NO_COLOR", "no_color"), ("CLICOLOR", "clicolor"), ("CLICOLOR_FORCE", "force")] {
         match r[key].as_str().unwrap() {
             "unset" => {
@@ -246,6 +277,22 @@ fn check_row(case: &Value, exe: &str, idx: usize) -> Option<Value> {
     });
     if !status.success() {
         return Some(json!({"what": "child failed or panicked", "status": status.to_string(), "stderr": String::from_utf8_lossy(&err)}));
+    }
+    if let Some(s) = &epipe {
+        let after = std::fs::read_to_string(s.path().join("after.txt")).unwrap_or_default();
+        let tty_only = r["tty_only"].as_bool().unwrap();
+        let plain: String = LEVELS.iter().map(|l| plain_line(*l, 2)).collect();
+        let stripped = strip_sgr(&after).map(|x| x.0).unwrap_or_else(|_| after.clone());
+        // (a tty_only appender that wrote to a terminal before keeps writing: the decision was made when it was built)
+        let wrote_before = case["writes"].as_bool().unwrap();
+        // (the record whose write failed may still arrive: standard output keeps what it could not write in its own
+        // buffer and writes it with the next flush - at most once, and in front of the others)
+        let void_line = format!("{:>12}|into the void>\n", "<ERRORtg>");
+        let ok = if wrote_before { stripped == plain || stripped == format!("{}{}", void_line, plain) } else { after.is_empty() };
+        if !ok {
+            return Some(json!({"what": "after a write failed with a broken pipe and the stream was re-pointed, the appender does not write as before",
+                               "tty_only": tty_only, "wrote_before": wrote_before, "expected_text": if wrote_before { plain } else { String::new() }, "actual": after}));
+        }
     }
     if let Some(s) = &redirect {
         // the second appender was built when the stream was a file: it writes unless it is tty_only, and colours only
